@@ -3,7 +3,7 @@ import itertools
 import random
 
 from common import Recorder, guarded, main
-from gen import specs1, specs, build_fiber, build_tensor, spec_key
+from gen import specs1, specs, build_fiber, build_tensor, spec_key, scale_spec
 from spec.oracle import raw, is_fiber, is_box, unbox, content, tensor_snapshot
 
 from fibertree import Fiber, Tensor, Payload
@@ -43,8 +43,11 @@ def pairs(it):
     return [(c, p) for c, p in it]
 
 
-def check_fiber(rec, part, depth, n, spec, owned, default=0):
+def check_fiber(rec, part, depth, n, spec, owned, default=0, ranges=None, actives=None, shape_ranges=None):
+    """ranges / actives / shape_ranges: explicit samples (used at scale) instead of the exhaustive enumeration over n."""
     case = dict(depth=depth, n=n, spec=_ser(spec), owned=owned, default=default)
+    if ranges is not None:
+        case.update(ranges=[list(r) for r in ranges], actives=[list(a) if a else None for a in actives], shape_ranges=[list(r) for r in shape_ranges])
     t, f = mk(spec, depth, n, owned, default=default)
     stored = list(zip(f.coords, f.payloads))
     occ = [(c, p) for c, p in stored if nonempty(p, default)]
@@ -68,7 +71,7 @@ def check_fiber(rec, part, depth, n, spec, owned, default=0):
     if ok:
         same(got, occ, "default iteration of a compressed rank is occupancy iteration", case)
     # range iteration with every range and every valid start_pos
-    for lo, hi in itertools.product([None] + list(range(n + 1)), repeat=2):
+    for lo, hi in (itertools.product([None] + list(range(n + 1)), repeat=2) if ranges is None else ranges):
         want = [(c, p) for c, p in occ if (lo is None or c >= lo) and (hi is None or c < hi)]
         c2 = dict(case, mode="iterRange", lo=lo, hi=hi)
         ok, got = guarded(rec, part, c2, lambda: pairs(f.iterRange(lo, hi)))
@@ -77,7 +80,7 @@ def check_fiber(rec, part, depth, n, spec, owned, default=0):
         # a valid saved-position shortcut: any position at or before the first element that would be yielded
         firstpos = next((i for i, (c, p) in enumerate(stored) if want and c == want[0][0]), len(stored) - 1 if stored else None)
         if firstpos is not None:
-            for sp in range(0, firstpos + 1):
+            for sp in (range(0, firstpos + 1) if ranges is None else sorted({0, firstpos, firstpos // 2})):
                 if any(((lo is None or c >= lo) and (hi is None or c < hi) and nonempty(p, default)) for c, p in stored[:sp]):
                     continue
                 c3 = dict(c2, start_pos=sp)
@@ -87,7 +90,7 @@ def check_fiber(rec, part, depth, n, spec, owned, default=0):
                         rec.violation(part, "saved position does not address the last element yielded", c3,
                                       "after a shortcut traversal the saved position addresses the last element yielded", f.getSavedPos(), None)
     # active range and shape iteration (no reference creation): tree untouched
-    for act in [None] + [(a, b) for a in range(n) for b in range(a, n + 1)]:
+    for act in ([None] + [(a, b) for a in range(n) for b in range(a, n + 1)] if actives is None else actives):
         t2, g = mk(spec, depth, n, owned, active=act, default=default)
         lo, hi = act if act else (0, n)
         st2 = list(zip(g.coords, g.payloads))
@@ -105,7 +108,7 @@ def check_fiber(rec, part, depth, n, spec, owned, default=0):
                     rec.violation(part, "absent coordinate not delivered as the default", c2, "shape iteration delivers the default for absent coordinates", unbox(p), default)
             if (tensor_snapshot(t2) if t2 else None, raw(g)) != before:
                 rec.violation(part, "non-reference shape iteration changed the tree", c2, "non-reference iteration never inserts", None, None)
-    for lo, hi, step in [(a, b, s) for a in range(n) for b in range(a, n + 1) for s in (1, 2)]:
+    for lo, hi, step in ([(a, b, s) for a in range(n) for b in range(a, n + 1) for s in (1, 2)] if shape_ranges is None else shape_ranges):
         t2, g = mk(spec, depth, n, owned, default=default)
         d = dict(zip(g.coords, g.payloads))
         c2 = dict(case, mode="rangeShape", lo=lo, hi=hi, step=step)
@@ -217,10 +220,26 @@ def run(tier, seed):
         for keep in ([True], [False], [True, False], [False, True, True]):
             rec.case("prune", (spec_key(spec), tuple(keep)))
             check_prune(rec, "prune", 4, spec, keep)
+    # at scale: seeded random fibers far outside the enumerated scope, sampled ranges (bounds on and off stored coordinates)
+    for _ in range(30 if tier == "quick" else 400):
+        spec, nn = scale_spec(rnd, vals=(0, 1), count=rnd.choice([12, 30, 70, 120]))
+        cs = sorted(spec)
+
+        def bound():
+            return rnd.choice([None, rnd.choice(cs), rnd.choice(cs) + 1, rnd.randrange(nn + 1)])
+        ranges = [(bound(), bound()) for _ in range(6)] + [(None, None)]
+        actives = [None] + [tuple(sorted((rnd.randrange(nn), rnd.randrange(nn + 1)))) for _ in range(2)]
+        shape_ranges = []
+        for _ in range(3):
+            lo = rnd.randrange(nn)
+            shape_ranges.append((lo, min(nn, lo + rnd.randint(0, 40)), rnd.choice([1, 1, 2, 3])))
+        owned = rnd.random() < 0.5
+        rec.case("scale", (spec_key(spec), owned, repr(ranges)))
+        check_fiber(rec, "scale", 1, nn, spec, owned, rnd.choice([0, 0, 1]), ranges=ranges, actives=actives, shape_ranges=shape_ranges)
     return rec.result("every fiber over %d coordinates with payloads {absent,0,1} (free-standing and owned, leaf default 0 and 1): every range/active "
                       "range/step, every valid start_pos, both rank formats, Ref and non-Ref forms; every depth-2 tree over 2 coordinates; all pairs for "
                       "lazily produced fibers (and/or/xor/sub/prune/project) traversed three times and materialised; all affine projections "
-                      "+-c+k with intervals; pruning patterns" % n)
+                      "+-c+k with intervals; pruning patterns; plus seeded random fibers at scale (12-120 elements) with sampled ranges" % n)
 
 
 def replay(case):
@@ -232,7 +251,11 @@ def replay(case):
     elif "keep" in case:
         check_prune(rec, "replay", case["n"], _deser(case["spec"]), case["keep"])
     else:
-        check_fiber(rec, "replay", case["depth"], case["n"], _deser(case["spec"]), case["owned"], case.get("default", 0))
+        kw = {}
+        if case.get("ranges") is not None:
+            kw = dict(ranges=[tuple(r) for r in case["ranges"]], actives=[tuple(a) if a else None for a in case["actives"]],
+                      shape_ranges=[tuple(r) for r in case["shape_ranges"]])
+        check_fiber(rec, "replay", case["depth"], case["n"], _deser(case["spec"]), case["owned"], case.get("default", 0), **kw)
     if rec.violations:
         v = rec.violations[0]
         return False, "REPRODUCED: %s: %s (observed %s, expected %s)" % (v["what"], v["clause"], v["observed"], v["expected"])
